@@ -13,7 +13,7 @@ CHECKS = {
  "C02": e1("DESIGN.md §4 C02", "Every attribute list (<=2 on all of ~820 generated policies crossing rule scope x value pattern x overlap x AllowNoAttrs (call- and builder-level) x data attributes, one deeper on a fifth of them) over a 28-attribute alphabet on six element classes, start and self-closing; every surviving attribute must be justified by a rule of the spec view, a well-formed data-* name, governed style or a forced attribute; bare tags must be bare-allowed."),
  "C03": e1("DESIGN.md §4 C03", "Every URL string (<=3 fragments over a 46-fragment URL alphabet, <=4 bytes over 13, data: URIs <=4 over 24 fragments) in each of the 17 element/attribute positions, alone and as a duplicated attribute, x scheme allowlist / relative / custom check / scheme regexp / rewriter / globally-admitted-attribute variants; every surviving value is classified by a WHATWG-style scheme extractor that does not use net/url."),
  "C04": e1("DESIGN.md §4 C04", "Hostile sweep (206 elements x 249 attributes x 7 value classes, XSS alphabet sequences <=3) against StrictPolicy and UGCPolicy judged on the DOM in 8 containers against the harness's transcription of the documented UGC vocabulary plus an independent blacklist; converse: ~61k generated conforming documents must come back unchanged apart from rel=nofollow."),
- "C05": e1("DESIGN.md §4 C05", "Every sequence <=3 over 47 script/style forms with uniquely numbered text markers (<=4 over a 20-fragment core) and byte strings glued to the literal names, against 10 policies that try to allow script/style without AllowUnsafe; no script/style tag or element in the output and no marker the tree builder places inside script/style of the input survives."),
+ "C05": e1("DESIGN.md §4 C05", "Every sequence <=3 over 47 script/style forms with uniquely numbered text markers (<=4 over a 20-fragment core) and byte strings glued to the literal names, against 10 policies that try to allow script/style without AllowUnsafe; no script/style tag or element in the output and no marker the tree builder places inside script/style of the input survives. Two known findings (tokenizer / tree-builder differentials inside svg|math and inside select, output inert) are listed in known_findings.jsonl."),
  "C06": e1("DESIGN.md §4 C06", "Every sequence <=3 over a 61-fragment text-heavy alphabet and byte strings <=5, against every policy of the family in the property's class with and without space insertion; exact two-pointer alignment of re-tokenised input and output (characters unchanged, tags kept or replaced by nothing / one space, no new tags)."),
  "C07": e1("DESIGN.md §4 C07", "For 120 generated overlapping-rule policies (every unordered pair of rule shapes over scope x pattern) and ~20 named ones (bare-after-rules orders, several bare patterns, space insertion, widened custom schemes), every document their own vocabulary generates (elements x <=2 attributes x witness values x nesting depth 2, ~4M documents) must be returned byte for byte modulo forced attributes."),
  "C10": e1("DESIGN.md §4 C10", "Every sequence of <=3 declarations over a 38-declaration alphabet (incl. an escape alphabet) on four element classes against 42 style rule sets (scope x matcher kind x style attribute admitted or not); output style re-split the way a browser does, each declaration justified on lower(css-decode(value)); exact expected output for escape-free inputs."),
@@ -42,7 +42,7 @@ CHECKS = {
          "For every input of <=2 fragments (core of 3) and 7 policies, the fault-free write sequence is recorded and every single write is failed (transient, permanent, partial) for both writer kinds; the reader is failed at every byte offset with six error values. Error must be returned, no write may follow the failure, accepted bytes must be a prefix of the fault-free output, SanitizeReader must return an empty buffer.",
          "Trusted: the fault-injecting doubles. Faults are injected only through the exported API."),
  "C17": ("model_checking", "explicit-state search over builder-call histories with an abstract rule-set state (reference model) and conformance of every history against the implementation by probe-output vectors", "E6", "DESIGN.md §4 C17",
-         "Every history of <=3 calls over a 66-call alphabet (every upper-case spelling has its lower-case twin; ~290k histories, 13k abstract states) is executed on a fresh real policy; all histories reaching one abstract state must agree byte for byte on 46 probe documents; an additive call never removes a kept tag or attribute. Instances: in a pristine process, after each call on a scratch instance a fresh and an earlier instance must be unaffected (3 bases), plus interleaved construction of two instances.",
+         "Every history of <=3 calls (thorough <=4 within budget) over a 76-call alphabet (every upper-case spelling has its lower-case twin; 439k histories, 14.7k abstract states), every history of <=2 calls that uses one of 17 helper / rarely used calls, and every history of <=2 calls (<=3 over the option calls) started from a links-enabled non-initial state, is executed on a fresh real policy by exactly one shard; the parent groups the records of all shards by abstract state; all histories reaching one abstract state must agree byte for byte on 46 probe documents; an additive call never removes a kept tag or attribute. Instances: in a pristine process, after each call on a scratch instance a fresh and an earlier instance must be unaffected (3 bases), plus interleaved construction of two instances.",
          "Trusted: the reference model (internal/spec ViewOf + Canon); probe documents distinguish the behaviours of interest."),
  "C20": e1("DESIGN.md §4 C20", "Fragment sequences (<=3 over F, <=4 core, <=3 over core + exotic syntax), URL strings in three positions, link attribute lists <=3, against every policy of the family inside the property's class plus Strict and UGC (with the del/ins proviso): Sanitize(Sanitize(x)) == Sanitize(x). One known finding (rel/target order) is listed in known_findings.jsonl."),
 }
